@@ -48,6 +48,52 @@ fn main() {
             }
             println!("{}", json!({"results": results}));
         }
+        "view" => {
+            // view <text>: the simplified recipe of the bindings against an independent walk over the core recipe
+            use cooklang_bindings::model::{Block, Item};
+            let text = args[2].replace("\\n", "\n");
+            let r = std::panic::catch_unwind(|| {
+                let mut problems: Vec<String> = vec![];
+                let parser = cooklang::CooklangParser::canonical();
+                let core = match parser.parse(&text).into_result() { Ok((r, _)) => r.scale(1.0, parser.converter()), Err(_) => return json!({"problems": ["core parser refuses the scenario"]}) };
+                let view = cooklang_bindings::parse_recipe(text.clone(), 1.0);
+                if view.sections.len() != core.sections.len() { problems.push(format!("{} sections instead of {}", view.sections.len(), core.sections.len())); return json!({"problems": problems}); }
+                if view.ingredients.len() != core.ingredients.len() || view.cookware.len() != core.cookware.len() || view.timers.len() != core.timers.len() { problems.push("component lists differ in length".into()); }
+                for (a, b) in view.ingredients.iter().zip(core.ingredients.iter()) { if a.name != b.name || a.descriptor != b.note || a.amount.is_some() != b.quantity.is_some() { problems.push(format!("ingredient {} does not mirror {}", a.name, b.name)); } }
+                for (a, b) in view.cookware.iter().zip(core.cookware.iter()) { if a.name != b.name || a.amount.is_some() != b.quantity.is_some() { problems.push(format!("cookware {} does not mirror {}", a.name, b.name)); } }
+                for (si, (vs, cs)) in view.sections.iter().zip(core.sections.iter()).enumerate() {
+                    if vs.title != cs.name { problems.push(format!("section {si}: title {:?} instead of {:?}", vs.title, cs.name)); }
+                    if vs.blocks.len() != cs.content.len() { problems.push(format!("section {si}: {} blocks for {} contents", vs.blocks.len(), cs.content.len())); continue; }
+                    let (mut si_i, mut si_c, mut si_t): (Vec<u32>, Vec<u32>, Vec<u32>) = (vec![], vec![], vec![]);
+                    for (bi, (vb, cc)) in vs.blocks.iter().zip(cs.content.iter()).enumerate() {
+                        match (vb, cc) {
+                            (Block::NoteBlock(n), cooklang::Content::Text(t)) => if &n.text != t { problems.push(format!("section {si} block {bi}: note text differs")); },
+                            (Block::StepBlock(st), cooklang::Content::Step(cst)) => {
+                                if st.items.len() != cst.items.len() { problems.push(format!("section {si} block {bi}: {} items for {}", st.items.len(), cst.items.len())); continue; }
+                                let (mut wi, mut wc, mut wt): (Vec<u32>, Vec<u32>, Vec<u32>) = (vec![], vec![], vec![]);
+                                for (vi, ci) in st.items.iter().zip(cst.items.iter()) {
+                                    let ok = match (vi, ci) {
+                                        (Item::Text { value }, cooklang::Item::Text { value: v }) => value == v,
+                                        (Item::Text { value }, cooklang::Item::InlineQuantity { .. }) => value.is_empty(),
+                                        (Item::IngredientRef { index }, cooklang::Item::Ingredient { index: i }) => { wi.push(*i as u32); *index as usize == *i }
+                                        (Item::CookwareRef { index }, cooklang::Item::Cookware { index: i }) => { wc.push(*i as u32); *index as usize == *i }
+                                        (Item::TimerRef { index }, cooklang::Item::Timer { index: i }) => { wt.push(*i as u32); *index as usize == *i }
+                                        _ => false,
+                                    };
+                                    if !ok { problems.push(format!("section {si} block {bi}: item {:?} does not mirror {:?}", vi, ci)); }
+                                }
+                                if st.ingredient_refs != wi || st.cookware_refs != wc || st.timer_refs != wt { problems.push(format!("section {si} block {bi}: step lists {:?}/{:?}/{:?} instead of {:?}/{:?}/{:?}", st.ingredient_refs, st.cookware_refs, st.timer_refs, wi, wc, wt)); }
+                                si_i.extend(wi); si_c.extend(wc); si_t.extend(wt);
+                            }
+                            _ => problems.push(format!("section {si} block {bi}: kind differs")),
+                        }
+                    }
+                    if vs.ingredient_refs != si_i || vs.cookware_refs != si_c || vs.timer_refs != si_t { problems.push(format!("section {si}: lists {:?}/{:?}/{:?} are not the concatenation of its steps' lists {:?}/{:?}/{:?}", vs.ingredient_refs, vs.cookware_refs, vs.timer_refs, si_i, si_c, si_t)); }
+                }
+                json!({"problems": problems})
+            });
+            match r { Ok(v) => println!("{}", v), Err(_) => println!("{}", json!({"panic": true})) }
+        }
         _ => { eprintln!("unknown command"); std::process::exit(2); }
     }
 }
